@@ -90,7 +90,7 @@ pub open spec fn state_matches(r: store::PaymentState, w: World) -> bool {
       store_gen(*old(w)) == attempt_id.state_generation as int ==> (!live(*old(w)) && !old(w).pay_running)
 //@ ensures#env
       rely_env(*old(w), *final(w))
-//@ ensures#inv [C08]
+//@ ensures#inv [C08,C02,C05]
       inv(*final(w))
 //@ ensures#ok_means_free [C09,C11]
       (r is Ok && !old(w).released) ==> store_of(*final(w)) is Free
